@@ -382,6 +382,20 @@ theorem schema_coherent (sc : Schema) (h : List (List (GOp K))) : GInv sc (grunH
   grunHist_ginv (gInv_g0 sc) h
 
 open Schema in
+/-- **for every naming**: how the set symbols at the ends of the collections are named, under which
+    key their buckets are stored and under which path prefix (`AddFkSymbolWithKey(name, key, store,
+    prefix...)`), and whether a child store is extended, does not influence any operation — two
+    schemas with the same declared collections run every history to the same state.  All `schema_*`
+    theorems quantify over the whole `Schema`, naming included; what the naming does decide is where
+    the buckets are (`Schema.bucketPath`, printed by the rendered dump and compared with the real
+    bucket tree on every run; `Schema.wf` = the symbols of a store have different names and
+    different, non-nested buckets). -/
+theorem schema_naming_irrelevant (sc : Schema) (e : Side → Bool) (n : Nat → Side → Naming) (g : GSt K)
+    (h : List (List (GOp K))) :
+    grunHist { colls := sc.colls, ext := e, naming := n } g h = grunHist sc g h :=
+  naming_irrelevant sc e n g h
+
+open Schema in
 /-- **symmetry, for every schema and every history**: in every declared plain collection, b is in
     a's link set iff a is in b's -/
 theorem schema_links_symmetric (sc : Schema) (h : List (List (GOp K))) {j : Nat} {ca cb : Bool}
@@ -731,6 +745,30 @@ example : let g' := (gdelete mixed (grunHist mixed g0 mixedHist) ⟨.B, true⟩ 
     SelfW.L (g'.slots 3) 8 = [8] := by decide
 
 open Schema in
+/-- a naming: collection 0 (ref-counted, child store of A <-> root store B) has on A the symbol `crew`
+    stored at `refs/crewCounts`, on B the symbol `ships` stored under the key `s`; collection 1 the plain
+    symbols `f1` -/
+def namedSchema : Schema :=
+  { colls := [.rc true false, .plain false false],
+    naming := fun i sd => match i, sd with
+      | 0, .A => { name := "crew", key := "crewCounts", pre := ["refs"] }
+      | 0, .B => { name := "ships", key := "s" }
+      | _, _ => { name := "f1", key := "f1" } }
+
+open Schema in
+example : namedSchema.wf = true ∧ namedSchema.bucketPath 0 (.rc true false) .A = ["ext", "refs", "crewCounts"] ∧
+    namedSchema.bucketPath 0 (.rc true false) .B = ["s"] := by decide
+open Schema in
+/-- ill-formed: two symbols of one store in the same bucket / nested buckets / same name -/
+example : ({ colls := [.plain false false, .rc false false], naming := fun _ _ => { name := "x", key := "x" } } : Schema).wf = false ∧
+    ({ colls := [.plain false false, .rc false false],
+       naming := fun i _ => if i = 0 then { name := "x", key := "x" } else { name := "y", key := "z", pre := ["x"] } } : Schema).wf = false := by decide
+open Schema in
+example : let h : List (List (GOp Nat)) := [[.create ⟨.A, true⟩ 1 false none, .create ⟨.B, false⟩ 7 false none, .count 0 (.incr .A 1 7)]]
+    rcOf ((grunHist namedSchema g0 h).slots 0) (.B, 7) 1 = some 1 ∧
+    rcOf ((gdelete namedSchema (grunHist namedSchema g0 h) ⟨.A, false⟩ 1).1.slots 0) (.B, 7) 1 = none := by decide
+
+open Schema in
 /-- Extended child store with link collections (found by this check, repaired by c784f90): the child
     store of A is extended and declares collection 0; entity 1 is created through the ROOT store (no
     extension data) or through the child store, entity 7 in B and linked with 1 through the
@@ -773,3 +811,4 @@ end StorageModel.Properties.C05
 #print axioms StorageModel.Properties.C05.schema_delete_unlinks_rc
 #print axioms StorageModel.Properties.C05.schema_delete_succeeds_iff
 #print axioms StorageModel.Properties.C05.schema_collection_refines_spec
+#print axioms StorageModel.Properties.C05.schema_naming_irrelevant
